@@ -339,7 +339,7 @@ Definition is_unbounded (v : aval) : bool :=
     to the branches the generated keyword sets can reach *)
 Definition apply_kwarg (kv : akey * aval) (acc : list (akey * aval)) : list (akey * aval) :=
   let (k, v) := kv in
-  if k <? 0 then acc                                            (* leading underscore: ignored *)
+  if (k <? 0) || (k =? K_EXPLICIT_TN) then acc                  (* leading underscore: ignored *)
   else if k =? K_TYPE_NAME then (K_EXPLICIT_TN, VBool true) :: acc
   else if k =? K_EXC_TABLE then (K_EXC_TABLE, v) :: (K_EXC_DB, v) :: acc
   else if (k =? K_MAX_OCCURS) && is_unbounded v then (K_MAX_OCCURS, VInf) :: acc
